@@ -34,7 +34,7 @@ class ChanDriver(ConcMixin):
                  for c, op, sc in steps]
         results = []
         try:
-            with core.case_alarm(30):
+            with core.case_alarm(12):
                 obs = chanrt.run_scenario(nchan, steps, results)
         except core.Broken:
             raise
